@@ -498,6 +498,51 @@ func c10Gen(tier string, rng *rand.Rand, emit func(interface{})) {
 	for it := 0; it < nH; it++ {
 		emit(c10GenHistory(rng, it%3 == 2))
 	}
+	// (f) ties: constant samples and samples with few distinct values, the values NOT small dyadic
+	//     numbers (0.1, 1/3, 1e9+0.1, ...), so that any rounding in the interpolation between two equal
+	//     order statistics shows; q on a fine grid (the order facts are compared exactly: result inside
+	//     [x0,x1], inside [min,max], non-decreasing in q)
+	nT := 40
+	if thorough {
+		nT = 600
+	}
+	odd := []float64{0.1, 1.0 / 3, 0.7, 1e9 + 0.1, -2.3, 1e-7 / 3, 123456.789, -1e15 / 7, 5e-324 * 3, 1e300}
+	for it := 0; it < nT; it++ {
+		n := 2 + rng.Intn(40)
+		d := 1 + rng.Intn(3) // number of distinct values
+		if it%4 == 0 {
+			d = 1
+		}
+		vals := make([]float64, d)
+		for i := range vals {
+			vals[i] = odd[rng.Intn(len(odd))]
+			if rng.Intn(2) == 0 {
+				vals[i] *= float64(1+rng.Intn(9)) / 7
+			}
+		}
+		xs := make([]float64, n)
+		for i := range xs {
+			xs[i] = vals[rng.Intn(d)]
+		}
+		var qs []float64
+		for i := 0; i <= 48; i++ {
+			qs = append(qs, float64(i)/48)
+		}
+		for i := 0; i < 12; i++ {
+			qs = append(qs, rng.Float64())
+		}
+		emit(c10Case{Xs: toF64s(xs), Qs: toF64s(qs)})
+		asc := append([]float64{}, xs...)
+		sort.Float64s(asc)
+		emit(c10Case{Xs: toF64s(asc), Sorted: true, Qs: toF64s(qs)})
+		if it%5 == 0 { // the same, weighted with unit / small integer weights
+			ws := make([]float64, n)
+			for i := range ws {
+				ws[i] = float64(1 + rng.Intn(3))
+			}
+			emit(c10Case{Ps: c10Pairs(xs, ws), HasW: true, Qs: toF64s(qs)})
+		}
+	}
 	// (d) degenerate / malformed: empty, single, all equal, all-zero weights, empty weighted
 	dq := toF64s([]float64{-1, 0, 1e-9, 0.25, 0.5, 0.75, 1, 2})
 	emit(c10Case{Xs: []F64{}, Qs: dq})
